@@ -78,6 +78,9 @@ pub struct Tr<'a> {
     pub partial: bool,
     /// set when a panicking construct / a call of a partial function is met while `partial` is false (retried as partial)
     pub needs_partial: bool,
+    /// the body uses an operation whose meaning depends on the width of usize (`checked_*` / `saturating_*` on usize, or calls such a
+    /// function): the definition takes the width as the implicit `{U__ : Casts.UsizeW}`
+    pub usize_w: std::cell::Cell<bool>,
     /// values of the abstracted items of the callee of a trait-qualified static call (`Trait::<A>::f(..)`): (callee key, values)
     pub assoc_override: std::cell::RefCell<Option<(String, Vec<String>)>>,
     /// the kinds of panic sites translated in this function (`assert!`, `slice index`, `call of f`, ..)
